@@ -26,6 +26,9 @@ def leptondMarkerSend : String := "conn.Write([]byte(clearBuffer))"
 /-- leptond sendCameraSpecs: headers.* keys written -/
 def leptondHeaderKeys : String := "Brand,FPS,Firmware,FrameSize,Model,Serial,XResolution,YResolution"
 
+/-- leptond sendCameraSpecs: the header map literal -/
+def leptondHeaderValues : String := "headers.Brand:lepton3.Brand;headers.FPS:camera.FPS();headers.Firmware:firmware;headers.FrameSize:lepton3.BytesPerFrame;headers.Model:model;headers.Serial:serial;headers.XResolution:camera.ResX();headers.YResolution:camera.ResY()"
+
 /-- headers.ReadHeaderInfo: keys read from the YAML map -/
 def recorderHeaderKeys : String := "Brand,FPS,Firmware,FrameSize,Model,Serial,XResolution,YResolution"
 
@@ -67,6 +70,15 @@ def windowGate : String := "!mp.window.Active()"
 
 /-- process: the trigger-frames test -/
 def triggerTest : String := "mp.triggered < mp.triggerFrames"
+
+/-- recorder.NewConfig: arguments of window.New -/
+def windowCtorArgs : String := "windowsConfig.StartRecording;windowsConfig.StopRecording;float64(windowLocationConfig.Latitude);float64(windowLocationConfig.Longitude)"
+
+/-- recorder.NewConfig: the RecorderConfig literal -/
+def recorderConfigFields : String := "MinSecs:thermalRecorderConfig.MinSecs;MaxSecs:thermalRecorderConfig.MaxSecs;PreviewSecs:thermalRecorderConfig.PreviewSecs;Window:*w;ConstantRecorder:thermalRecorderConfig.ConstantRecorder"
+
+/-- RecorderConfig.validate: the rejected case -/
+def recorderConfigValidate : String := "conf.MaxSecs < conf.MinSecs"
 
 /-- handleConn: condition under which the throttle wraps the recorder -/
 def throttleGuardExpr : String := "conf.Throttler.Activate"
